@@ -29,6 +29,7 @@ def run(ctx):
     ar.fresh_part_rule(ctx, 'R9.5')
     ar.index_normalisation_rule(ctx, 'R9.6')
     r98(ctx)
+    r910(ctx)
     ar.mode_params_rule(ctx, 'R9.9')
     r96(ctx, api)
     r97(ctx, wr)
@@ -86,7 +87,7 @@ def r91(ctx, api, wr):
     g = api.func('ParquetFile._sort_part_names')
     cfg = CFG(g)
     w = _call_stmt(g, 'self._write_common_metadata')
-    ren = [s for s in iter_child_stmts(g.body) if isinstance(s, ast.Expr) and callee(s.value) == 'self.fs.rename']
+    ren = [s for s in iter_child_stmts(g.body) if isinstance(s, ast.Expr) and _is_rename(g, s.value)]
     ok = len(w) == 1 and len(ren) >= 2 and all(cfg.exists_path(cfg.node_of(r), cfg.node_of(w[0])) for r in ren) and \
         not _late_effects(cfg, cfg.node_of(w[0]), api)
     tests = [norm(e.test) for e, fld in cfg.enclosing_tests(w[0]) if isinstance(e, ast.If) and fld == 'body'] if w else []
@@ -151,20 +152,25 @@ def r92(ctx, api):
     if ok:
         body = [norm(x) for x in second[0].body]
         need = ['rgid, fname = (item[0], item[1])', "dst_part = join_path(parts, f'part.{rgid}.parquet')",
-                'dst = join_path(basepath, dst_part)', 'self.fs.rename(src, dst)']
-        ok = all(x in body for x in need) and any(
+                'dst = join_path(basepath, dst_part)']
+        ok = all(x in body for x in need) and any(_is_rename(g, x.value) and [norm(a) for a in x.value.args] == ['src', 'dst']
+                                                  for x in second[0].body if isinstance(x, ast.Expr)) and any(
             x.startswith('for col in self.fmd.row_groups[rgid].columns:') and 'col.file_path = dst_part' in x for x in body)
     ctx.ob('R9.2', 'api._sort_part_names:new-path-stored-on-the-row-group-whose-file-was-renamed', ok,
            'rename target part.{rgid}.parquet and store on row_groups[rgid]', api.loc(g))
 
 
+def _is_rename(g, c):
+    return isinstance(c, ast.Call) and fx.classify(c, fx.local_aliases(g)) == 'RENAME'
+
+
 def r93(ctx, api):
     g = api.func('ParquetFile._sort_part_names')
-    loops = [s for s in iter_child_stmts(g.body) if isinstance(s, ast.For) and 'self.fs.rename' in src(s)]
+    loops = [s for s in iter_child_stmts(g.body) if isinstance(s, ast.For) and any(_is_rename(g, c) for c in ast.walk(s))]
     plan = []
     for lp in loops:
         for c in ast.walk(lp):
-            if isinstance(c, ast.Call) and callee(c) == 'self.fs.rename' and len(c.args) == 2:
+            if _is_rename(g, c) and len(c.args) == 2:
                 defs = {norm(s.targets[0]): norm(s.value) for s in iter_child_stmts(lp.body) if isinstance(s, ast.Assign)
                         and isinstance(s.targets[0], ast.Name)}
                 a, b = (defs.get(norm(x), norm(x)) for x in c.args)
@@ -259,3 +265,29 @@ def r98(ctx, rule='R9.8'):
                        '`%s` in %s: the cached list lags behind fmd.row_groups while row groups are being added, removed or re-ordered' % (norm(x), q),
                        api.loc(x))
     ctx.floor(rule, 'row-group list uses in the mutators', n, 8)
+
+
+def r910(ctx, rule='R9.10'):
+    """`self.fs` is set by one branch of ParquetFile.__init__ only (and never by slicing, pickling or list
+    construction): every use outside __init__ is protected by hasattr(self, 'fs'), so that a mutation cannot fail
+    half-way (files removed, summary not yet rewritten) for lack of it"""
+    api = ctx.repo['api']
+    n = 0
+    for q, f in api.funcs.items():
+        if not q.startswith('ParquetFile.') or q == 'ParquetFile.__init__':
+            continue
+        cfg = None
+        for x in walk_no_nested(f):
+            if isinstance(x, ast.Attribute) and norm(x) == 'self.fs' and isinstance(x.ctx, ast.Load):
+                n += 1
+                ok = False
+                for y in walk_no_nested(f):
+                    if isinstance(y, ast.IfExp) and any(z is x for z in ast.walk(y.body)) and norm(y.test) == "hasattr(self, 'fs')":
+                        ok = True
+                if not ok:
+                    cfg = cfg or CFG(f)
+                    for nd in cfg.nodes:
+                        if nd.stmt is not None and any(z is x for z in ast.walk(nd.stmt)) and not isinstance(nd.stmt, (ast.If, ast.For, ast.While, ast.Try, ast.With)):
+                            ok = any(norm(e.test) == "hasattr(self, 'fs')" and fld == 'body' for e, fld in cfg.enclosing_tests(nd.stmt))
+                ctx.ob(rule, 'api.%s:self.fs-used-only-when-present' % q.split('.')[-1], ok, '`%s` unguarded' % norm(x), api.loc(x))
+    ctx.floor(rule, 'uses of self.fs outside __init__', n, 2)
